@@ -384,3 +384,139 @@ func deepCopy(v reflect.Value) reflect.Value {
 	}
 	return v
 }
+
+// fingerprint hashes everything reachable from v (following pointers and
+// interfaces, reading unexported fields too). Two fingerprints of the same
+// value taken at different times differ iff something reachable changed.
+func fingerprint(v reflect.Value) uint64 {
+	h := uint64(14695981039346656037)
+	fpWalk(v, &h, 0)
+	return h
+}
+
+func fpMix(h *uint64, x uint64) {
+	for i := 0; i < 8; i++ {
+		*h ^= x & 0xff
+		*h *= 1099511628211
+		x >>= 8
+	}
+}
+
+func fpWalk(v reflect.Value, h *uint64, depth int) {
+	if depth > 40 || !v.IsValid() {
+		return
+	}
+	switch v.Kind() {
+	case reflect.Ptr:
+		if v.IsNil() {
+			fpMix(h, 0x6e696c)
+			return
+		}
+		fpMix(h, 0x707472)
+		fpWalk(v.Elem(), h, depth+1)
+	case reflect.Interface:
+		if v.IsNil() {
+			fpMix(h, 0x6e696c)
+			return
+		}
+		fpMix(h, core.HashStr(0, v.Elem().Type().String()))
+		fpWalk(v.Elem(), h, depth+1)
+	case reflect.Struct:
+		for i := 0; i < v.NumField(); i++ {
+			fpWalk(v.Field(i), h, depth+1)
+		}
+	case reflect.Slice:
+		if v.IsNil() {
+			fpMix(h, 0x6e696c)
+			return
+		}
+		fpMix(h, uint64(v.Len())|1<<40)
+		if v.Type().Elem().Kind() == reflect.Uint8 {
+			fpMix(h, core.HashBytes(0, v.Bytes()))
+			return
+		}
+		for i := 0; i < v.Len(); i++ {
+			fpWalk(v.Index(i), h, depth+1)
+		}
+	case reflect.Array:
+		for i := 0; i < v.Len(); i++ {
+			fpWalk(v.Index(i), h, depth+1)
+		}
+	case reflect.String:
+		fpMix(h, core.HashStr(0, v.String()))
+	case reflect.Bool:
+		if v.Bool() {
+			fpMix(h, 1)
+		} else {
+			fpMix(h, 2)
+		}
+	case reflect.Int, reflect.Int8, reflect.Int16, reflect.Int32, reflect.Int64:
+		fpMix(h, uint64(v.Int()))
+	case reflect.Uint, reflect.Uint8, reflect.Uint16, reflect.Uint32, reflect.Uint64, reflect.Uintptr:
+		fpMix(h, v.Uint())
+	case reflect.Map:
+		// order-independent: sum of the entry hashes
+		var sum uint64
+		it := v.MapRange()
+		for it.Next() {
+			e := uint64(14695981039346656037)
+			fpWalk(it.Key(), &e, depth+1)
+			fpWalk(it.Value(), &e, depth+1)
+			sum += e
+		}
+		fpMix(h, sum)
+	}
+}
+
+// scribbleAll overwrites every settable scalar reachable from v (integers
+// complemented, booleans flipped, byte slices complemented) without replacing
+// any pointer or slice header: whatever else shares that memory sees it.
+func scribbleAll(v reflect.Value, depth int) {
+	if depth > 40 || !v.IsValid() {
+		return
+	}
+	switch v.Kind() {
+	case reflect.Ptr, reflect.Interface:
+		if !v.IsNil() {
+			scribbleAll(v.Elem(), depth+1)
+		}
+	case reflect.Struct:
+		for i := 0; i < v.NumField(); i++ {
+			scribbleAll(v.Field(i), depth+1)
+		}
+	case reflect.Slice, reflect.Array:
+		for i := 0; i < v.Len(); i++ {
+			scribbleAll(v.Index(i), depth+1)
+		}
+	case reflect.Bool:
+		if v.CanSet() {
+			v.SetBool(!v.Bool())
+		}
+	case reflect.Int, reflect.Int8, reflect.Int16, reflect.Int32, reflect.Int64:
+		if v.CanSet() {
+			v.SetInt(^v.Int())
+		}
+	case reflect.Uint, reflect.Uint8, reflect.Uint16, reflect.Uint32, reflect.Uint64:
+		if v.CanSet() {
+			v.SetUint(^v.Uint() & (1<<uint(v.Type().Bits()) - 1))
+		}
+	}
+}
+
+// detachedProbe watches a value that a decoder handed out: take() keeps a
+// shallow copy of *recv (what a caller that passes the result on keeps) and its
+// fingerprint; changed() reports whether anything reachable from that copy was
+// altered since.
+type detachedProbe struct {
+	copyV reflect.Value
+	fp    uint64
+}
+
+func takeDetached(recv interface{}) *detachedProbe {
+	rv := reflect.ValueOf(recv).Elem()
+	cp := reflect.New(rv.Type()).Elem()
+	cp.Set(rv)
+	return &detachedProbe{copyV: cp, fp: fingerprint(cp)}
+}
+
+func (d *detachedProbe) changed() bool { return fingerprint(d.copyV) != d.fp }
